@@ -498,6 +498,7 @@ class POP3CommandHandler:
             #
             expunge_cmd = IMAPClientCommand("A001 EXPUNGE")
             expunge_cmd.command = IMAPCommand.EXPUNGE
+            expunge_cmd.forced_expunge = True
             try:
                 async with expunge_cmd.ready_and_okay(self.mbox):
                     await self.mbox.expunge(
